@@ -54,19 +54,34 @@ class Faults:
         self.plan = plan or {}
         self.rec = rec
         self.mut_calls = {}
+        self.mut_seen = []
+        self.mut_target = None
         self.io_ops = 0
         self.out_ops = 0
 
     def maybe_mutator_fault(self, cname, meth, site=None):
         mf = self.plan.get('mutator')
-        if not mf or mf['cls'] != cname:
-            return
-        if mf.get('meth') and mf['meth'] != meth:
+        if not mf:
             return
         if mf.get('site') and mf['site'] != site:
             # fault placed at a particular call site of the mutator: calls
             # from elsewhere neither fail nor count
             return
+        target = mf['cls']
+        if target.startswith('#'):
+            # '#k': the k-th distinct mutator class consulted in this run (a
+            # class that is certainly in use; decided by the run itself)
+            if cname not in self.mut_seen:
+                self.mut_seen.append(cname)
+            k = int(target[1:])
+            if len(self.mut_seen) <= k:
+                return
+            target = self.mut_seen[k]
+        if target != cname:
+            return
+        if mf.get('meth') and mf['meth'] != meth:
+            return
+        self.mut_target = cname
         n = self.mut_calls.get(cname, 0) + 1
         self.mut_calls[cname] = n
         cnt = mf.get('count')
@@ -587,6 +602,7 @@ def execute(spec):
     res.trace_digest = h.hexdigest()
     res.log = S.log
     res.finals = rec.finals
+    res.mut_target = getattr(CTX.faults, 'mut_target', None)
     # options namespace as parsed (for C14) - read before reset
     try:
         res.namespace = dict(vars(getattr(m.options, '__PARSED_ARGS')))
